@@ -188,6 +188,7 @@ TEMPLATES = {
     # name: (source with {0},{1}.. holes, hole alphabets)
     'objmacro.ident': (b'#define AB 5\n{0}{1} AB xAB ABx AB_ _AB "AB" AB\n', [b'AaB_x1', b'BbA_y2']),
     'funcmacro': (b'#define F(x,y) [x, y, x{0}y]\nF(1,2) F(a, (b,c)) F([1,2],"p,q") F(F(1,2),3)\n', [b'+-']),
+    'funcmacro.nesting': (b'#define P(x,y) x|y\nP([[1,2],3],4) P(a,[[1],[2,3]]) P(((1,2),3),{{4,5},6}) P([(1,{2,3}),4],5){0}\n', [b' ;']),
     'stringify.concat': (b'#define S(a) #a\n#define C(a,b) a##b##a\nS(w{0}) C(p{1},q) "S(1)" S("s")\n', [b'xy_', b'z1']),
     'body.string': (b'#define X 5\n#define G(NAME) "Hello NAME {0}" + NAME + X\nG(world) G(X) "G(1)"\n', [b'Xab']),
     'nested.body': (b'#define A 1\n#define B (A + A)\n#define Cc(v) (B * v)\nCc(A) Cc(Cc(2)) B{0}\n', [b' ;A']),
@@ -217,11 +218,15 @@ def expand_case(h, name):
             if out is not None and not errs: rt.record_violation('assert', 'reference expander rejects %r but the preprocessor succeeded silently' % src)
             return dict(text=repr(src)[:200], n=0)
         if out is None:
-            rt.record_violation('assert', 'preprocessing of %r failed (%s), reference expansion %r' % (src, errs[0][2][:100] if errs else 'no diagnostic', ref)); return dict(text=repr(src)[:200], n=0)
+            rt.record_violation('assert', 'preprocessing of %r failed (%s), reference expansion %r' % (src, errs[0][2][:100] if errs else 'no diagnostic', ref))
+            rt.PS.violations[-1]['ppspec'] = dict(kind='pp', hex=src.hex(), expect=[t.decode('latin1') for t in tokens(ref)])
+            return dict(text=repr(src)[:200], n=0)
         real = bytes(rt.concretize(b) if b.__class__ is S else b for b in out)
         lines = [l for l in real.split(b'\n') if not l.startswith(b'#line')]
         tr, te = tokens(b'\n'.join(lines)), tokens(ref)
-        if tr != te: rt.record_violation('assert', 'preprocessing %r gives tokens %r, reference expansion %r' % (src, tr[:40], te[:40]))
+        if tr != te:
+            rt.record_violation('assert', 'preprocessing %r gives tokens %r, reference expansion %r' % (src, tr[:40], te[:40]))
+            rt.PS.violations[-1]['ppspec'] = dict(kind='pp', hex=src.hex(), expect=[t.decode('latin1') for t in te])
         return dict(text=repr(src)[:200], n=len(te))
     return case
 
@@ -280,6 +285,8 @@ def run(ctx):
     h = vmh.load()
     funcs = sorted(x for x in h.m.DEFINED if 'preprocessor' in x and len(x) < 140)
     def rep(cid, v, rr):
+        for x in rr.get('violations', []):
+            if x.get('msg') == v.get('msg') and x.get('ppspec'): return x['ppspec']
         m = re.search(r"preprocessing (b'(?:[^'\\]|\\.)*'|b\"(?:[^\"\\]|\\.)*\") gives tokens .*, reference expansion (\[.*\])$", v.get('msg', ''), re.S)
         if not m: return None
         return dict(kind='pp', hex=eval(m.group(1)).hex(), expect=[t.decode('latin1') for t in eval(m.group(2))])
